@@ -29,9 +29,13 @@ DELIVERY = ("after-close", "right-socket")
 def spec_c11(impl, scn):
     fails = spec.check(impl, scn)
     try:
-        fails += [f for f in udpspec.check(impl, scn) if f[0] in DELIVERY]
-    except Exception:
-        pass
+        for f in udpspec.check(impl, scn):
+            if f[0] in DELIVERY: fails.append(f)
+            elif f[0] == "monitor-error": fails.append(("internal", "specs/udp.py: " + str(f[1])))   # (it catches its own exceptions)
+    except Exception as e:
+        # a crashing monitor must not read as "held"
+        import traceback
+        fails.append(("internal", "specs/udp.py raised %r: %s" % (e, traceback.format_exc(limit=3).replace("\n", " | "))))
     return fails
 
 def gen_c11(seed, tier):
@@ -44,7 +48,7 @@ def nontrivial(impl):
 
 CHECK = ScenarioCheck(
     "C11", ["SimVerif.Props.C11"], "kernel", gen_c11, spec_c11, nontrivial,
-    "net_gen family `reg` (random open / bind / listen / connect / close / re-open / move / destroy over sockets, acceptors and UDP sockets) plus boundary-directed histories (gen/reg_gen.py): ports 1 / 80 / 1023 / 1024 / 65534 / 65535; port 0 up to 25 times with the counter's next candidates bound explicitly beforehand, TCP / UDP interleaved; one endpoint bound by a TCP socket, an acceptor and a UDP socket; single-, multi-homed (wildcard = first address, positional), dual-stack and v6-only nodes; wrong family both ways, wildcard of a missing family, foreign address; double bind; release by close / close0 / destroy / re-open / move+close then rebind; moved-from object re-opened and bound, chains of moves; acceptor lifecycles over several run()s (accepted socket closed / destroyed / re-opened / moved then connect again; acceptor closed / destroyed / re-opened at top level or at a later virtual time then connect -> refused, a NEW acceptor on the endpoint while old accepted sockets live on and are closed afterwards); connects from closed / open / explicitly bound sockets incl. wrong family and missing family; UDP send_to from unbound sockets; datagrams in flight towards a UDP socket that is closed, re-opened (also open() on the open socket), bound to another port or moved before they arrive (gen/udp_gen.py family `reopen`; delivery clauses `after-close` / `right-socket` of specs/udp.py). Checked on every implementation trace by a reference registry (clauses in specs/registry.py); non-trivial = >= 3 bind results with >= 1 error or >= 1 bind after a close / destroy / move; distinct = distinct implementation trace",
+    "net_gen family `reg` (random open / bind / listen / connect / close / re-open / move / destroy over sockets, acceptors and UDP sockets) plus boundary-directed histories (gen/reg_gen.py): ports 1 / 80 / 1023 / 1024 / 65534 / 65535; port 0 up to 25 times with the counter's next candidates bound explicitly beforehand, TCP / UDP interleaved; one endpoint bound by a TCP socket, an acceptor and a UDP socket; single-, multi-homed (wildcard = first address, positional), dual-stack and v6-only nodes; wrong family both ways, wildcard of a missing family, foreign address; double bind; release by close / close0 / destroy / re-open / move+close then rebind; moved-from object re-opened and bound, chains of moves; acceptor lifecycles over several run()s (accepted socket closed / destroyed / re-opened / moved then connect again; acceptor closed / destroyed / re-opened at top level or at a later virtual time then connect -> refused; acceptor closed / close0 / destroyed / re-opened 0 ns .. 70 ms after connects dialled to it were issued inside the same run() (SYN in flight or queued), then re-listening on the same or another port or a new acceptor object, accept_ep must only hand out connects dialled to the endpoint held; a NEW acceptor on the endpoint while old accepted sockets live on and are closed afterwards); connects from closed / open / explicitly bound sockets incl. wrong family and missing family; UDP send_to from unbound sockets; datagrams in flight towards a UDP socket that is closed, re-opened (also open() on the open socket), bound to another port or moved before they arrive (gen/udp_gen.py family `reopen`; delivery clauses `after-close` / `right-socket` of specs/udp.py). Checked on every implementation trace by a reference registry (clauses in specs/registry.py); non-trivial = >= 3 bind results with >= 1 error or >= 1 bind after a close / destroy / move; distinct = distinct implementation trace",
     TRUSTED, ASSUME, spec_scn=True)
 
 def run(tier, seed, replay):
